@@ -59,12 +59,15 @@ func main() {
 		fmt.Fprintln(os.Stderr, "usage: govc check <PROP> [flags] | govc replay <file>")
 		os.Exit(2)
 	}
-	defer cleanupScratch()
 	switch os.Args[1] {
 	case "check":
-		os.Exit(cmdCheck(os.Args[2:]))
+		rc := cmdCheck(os.Args[2:])
+		cleanupScratch() // os.Exit does not run deferred calls
+		os.Exit(rc)
 	case "replay":
-		os.Exit(cmdReplay(os.Args[2:]))
+		rc := cmdReplay(os.Args[2:])
+		cleanupScratch()
+		os.Exit(rc)
 	default:
 		fmt.Fprintln(os.Stderr, "unknown command", os.Args[1])
 		os.Exit(2)
